@@ -28,7 +28,7 @@ def ensure_extractor():
     return exe
 
 
-def extract(bdir, probes=False, name="fb_verif", probe_prop=None):
+def extract(bdir, probes=False, name="fb_verif", probe_prop=None, shard=None):
     exe = ensure_extractor()
     out = os.path.join(bdir, name + ".rs")
     mp = os.path.join(bdir, name + ".map.json")
@@ -37,6 +37,8 @@ def extract(bdir, probes=False, name="fb_verif", probe_prop=None):
         cmd.append("--probes")
         if probe_prop:
             cmd += ["--probe-prop", probe_prop]
+        if shard:
+            cmd += ["--probe-shard", "%d:%d" % shard]
     r = sh(cmd)
     if r.returncode != 0:
         return None, None, r.stderr.strip()
